@@ -7,3 +7,5 @@ import "sync"
 func verifYield(string) {}
 
 func verifBeforeLock(*sync.RWMutex, bool, string) {}
+
+func verifFetcherLock(*sync.RWMutex) {}
